@@ -176,7 +176,10 @@ def evalOp (st : State) (chk : Bool) (p : Program) (ws : List String) : Option O
     match findField p f, parseNum raw with
     | some fd, some r =>
       match storageOfExposed st chk p r with
-      | some sr => some { m := showR st (mGet st chk p fd idx sr), s := some (showR st (sGet st p fd idx r)) }
+      | some sr =>
+        -- KF1: a list naming bits twice that is wider than the storage is outside every read guarantee
+        let wide := selfOverlapping fd && decide (fd.totalBits > p.base.internal)
+        some { m := showR st (mGet st chk p fd idx sr), s := if wide then none else some (showR st (sGet st p fd idx r)) }
       | none => none
     | _, _ => none
   | [kind, f, idx, raw, v] =>
